@@ -231,7 +231,14 @@ func redirPlaintextHost(cfg *SiteConfig) *SiteConfig {
 				toURL += net.JoinHostPort(requestHost, redirPort)
 			}
 
-			toURL += r.URL.RequestURI()
+			// (a request target such as http:@evil.org/ is kept in
+			// URL.Opaque and does not begin with a slash: it must
+			// not continue the host)
+			uri := r.URL.RequestURI()
+			if !strings.HasPrefix(uri, "/") {
+				uri = "/" + uri
+			}
+			toURL += uri
 
 			w.Header().Set("Connection", "close")
 			http.Redirect(w, r, toURL, http.StatusMovedPermanently)
